@@ -160,7 +160,17 @@ class DecoSys:
     def apply(self, a, c, arg):
         self.current = c
         if a == "start":
-            t = Task(self.func(c, func="f", self="s", args="a", kwds="k"), self.acct)
+            call = self.func(c, func="f", self="s", args="a", kwds="k")
+            if c % 2 == 0:
+                # awaited from inside an `except` block: the exception being handled out there is none of the call's
+                # business (its context is left normally when its body ends normally)
+                async def while_handling(aw=call):
+                    try:
+                        raise LookupError("being handled by the caller")
+                    except LookupError:
+                        return await aw
+                call = while_handling()
+            t = Task(call, self.acct)
             self.task[c] = t
             self._after(c, t.step())
         elif a == "entered":
